@@ -26,8 +26,17 @@ def main():
         pid = mid.split("-")[0]
         mp = os.path.join(d, "meta.json")
         meta = json.load(open(mp))
-        r = sh(["git", "-C", REPO, "apply", os.path.join(d, "patch.diff")])
-        if r.returncode != 0:
+        # a later fix: commit in /repo may touch the same lines: a ported variant of the patch (same meaning)
+        # is then stored beside the original as patch.after-<commit>.diff
+        cands = [os.path.join(d, "patch.diff")] + sorted(glob.glob(os.path.join(d, "patch.after-*.diff")))
+        used = None
+        for cnd in cands:
+            r = sh(["git", "-C", REPO, "apply", "--check", cnd])
+            if r.returncode == 0:
+                r = sh(["git", "-C", REPO, "apply", cnd])
+                used = os.path.basename(cnd)
+                break
+        if used is None:
             print(mid, "patch does not apply:", r.stdout.strip()[:200])
             meta.setdefault("checks", {})[tier] = dict(applies=False, repo_head=head)
             json.dump(meta, open(mp, "w"), indent=1)
@@ -41,7 +50,7 @@ def main():
         out = c.stdout
         vio = [l for l in out.splitlines() if l.startswith("VIOLATION")]
         why = [l[len("[check] "):] for l in out.splitlines() if l.startswith("[check] violated") or l.startswith("[check] broken") or "BROKEN obligations" in l]
-        res = dict(repo_head=head, command="git -C /repo apply seeded/%s/patch.diff; bin/check %s --tier %s; git -C /repo checkout -- ." % (mid, pid, tier),
+        res = dict(repo_head=head, patch_file=used, command="git -C /repo apply seeded/%s/patch.diff; bin/check %s --tier %s; git -C /repo checkout -- ." % (mid, pid, tier),
                    exit=c.returncode, detected=bool(vio) and c.returncode == 1,
                    concrete_failing_input=any("no-failing-input-found" not in v for v in vio) if vio else False,
                    violation_lines=[re.sub(r"replay=\S+", "replay=…", v) for v in vio][:3],
